@@ -798,6 +798,15 @@ def np_array(ex, args, kw, st):
     raise Unsupported('np.array of this value')
 
 
+def np_asarray(ex, args, kw, st):
+    """np.asarray / asanyarray: the array itself (no copy) for arrays, a new array for tuples and
+    lists of numbers."""
+    v = args[0]
+    if isinstance(v, (tuple, list)) and v and all(is_num(x) for x in v):
+        return np_array(ex, [v], {}, st)
+    return np_identity(ex, args, kw, st)
+
+
 def np_atleast_1d(ex, args, kw, st):
     v = args[0]
     if isinstance(v, (SArr, SSeq)):
@@ -1020,7 +1029,7 @@ TABLE = {
     'np.logical_not': np_logical('not'),
     'np.zeros': np_zeros(0), 'np.ones': np_zeros(1), 'np.zeros_like': np_zeros(0, True),
     'np.ones_like': np_zeros(1, True), 'np.full': np_full, 'np.where': np_where,
-    'np.asarray': np_identity, 'np.asanyarray': np_identity, 'np.copy': np_copy,
+    'np.asarray': np_asarray, 'np.asanyarray': np_asarray, 'np.copy': np_copy,
     'np.array': np_array, 'np.atleast_1d': np_atleast_1d, 'np.transpose': np_transpose,
     'np.count_nonzero': np_count_nonzero, 'np.sum': np_sum, 'np.nansum': np_sum, 'np.any': np_any, 'np.all': np_all,
     'np.diff': np_diff, 'np.argmax': np_argmax_first_true,
